@@ -311,7 +311,39 @@ def run(tier, seed, shard, nshards):
             addr += draw(st.sampled_from([0x20, 0x40, 0x100]))
         return cpu, bpa, blocks
 
-    hist = st.tuples(st.lists(progs.structured_program(pools, align_data=None), min_size=2, max_size=4),
+    @st.composite
+    def stress_program(draw):
+        """a legal program with a few hundred forward references inside unary / parenthesised expressions, macro calls
+        and conditionals: whatever such statements leave behind in the process (counters, stacks, buffers) is left
+        behind a few hundred times"""
+        cpu = draw(st.sampled_from(["msp430", "z80", "68000"]))
+        p = progs.Prog(cpu)
+        p.add(".%s" % cpu, "header")
+        n = draw(st.sampled_from([60, 130, 260]))
+        forms = ["-(%s)", "~(%s + 1)", "(%s) * 2", "-%s", "((%s))", "%s - (3)", "-(-(%s))", "~%s", "(1 + (%s - 2))", "-(%s + (2 * 3))"]
+        p.add(".macro STW(a)", "macrodef")
+        p.add("  .dc32 a", "macro:STW")
+        p.add(".endm", "macrodef")
+        p.macro_invoked.add("STW")
+        for i in range(n):
+            f = draw(st.sampled_from(forms)) % ("fw%d" % (i % 7))
+            k = draw(st.integers(0, 5))
+            if k == 0:
+                p.add("  STW(%s)" % f, "top")
+            elif k == 1:
+                p.add(".if 1", "ifdir")
+                p.add("  .dc32 %s" % f, "if_taken")
+                p.add(".endif", "ifdir")
+            else:
+                p.add("  .dc32 %s" % f, "top")
+        for i in range(7):
+            p.add("fw%d:" % i, "top")
+            p.add("  .dc32 %d" % i, "top")
+        return p
+
+    hist = st.tuples(st.lists(st.one_of(progs.structured_program(pools, align_data=None),
+                                        progs.structured_program(pools, align_data=None), stress_program()),
+                              min_size=2, max_size=4),
                      st.lists(st.tuples(st.integers(0, 3), st.booleans()), min_size=3, max_size=8)).map(
         lambda t: (t[0], [(i % len(t[0]), l) for i, l in t[1]]))
     try:
